@@ -7,6 +7,20 @@ import vlib, corpus
 BAD = "entity e is\n  port (a : in std_logic\nend entity e;\narchitecture a of e is begin begin end;\n"
 
 
+# neighbours that leave the reader in an unusual state at their end: whatever a file leaves behind must not reach
+# the next file handled by the same process
+_BODY = "library ieee;\n  use ieee.std_logic_1164.all;\n\nentity nb is\n  port (\n    a : in    std_logic\n  );\nend entity nb;\n\n"
+SPECIAL = {
+    "BAD": BAD,
+    "OPEN_COMP_OFF": _BODY + "--vhdl_comp_off\nthis text is not vhdl ( ;\n",
+    "OPEN_RTL_SYNTHESIS_OFF": _BODY + "-- RTL_SYNTHESIS OFF\nthis text is not vhdl ( ;\n",
+    "OPEN_SYNTH_OFF": _BODY + "-- synthesis translate_off\nthis text is not vhdl ( ;\n",
+    "OPEN_DELIM": _BODY + "/* a delimited comment that is never closed\narchitecture x of nb is\n",
+    "OPEN_TAG": _BODY + "-- vsg_off\narchitecture   RTL   of nb   is\nbegin\nend   architecture RTL;\n",
+    "OPEN_TAG_NAMED": "-- vsg_off entity_001 library_008 port_007\n" + _BODY,
+}
+
+
 def run_cli(args, cwd, stdin=None):
     p = subprocess.run(vlib.vsg_cmd() + args, cwd=cwd, env=vlib.repo_env(), stdout=subprocess.PIPE, stderr=subprocess.PIPE, text=True, timeout=1800, input=stdin)
     return p.returncode, p.stdout, p.stderr
@@ -67,7 +81,7 @@ def _case(job):
 
     r = random.Random("%s/%d" % (seed, k))
     names = ["f%d.vhd" % i for i in range(len(srcs))]
-    texts = [BAD if s == "BAD" else open(s).read() for s in srcs]
+    texts = [SPECIAL[s] if s in SPECIAL else open(s).read() for s in srcs]
     d = os.path.join(tmpdir, "c%d" % k)
     os.makedirs(d)
 
@@ -177,6 +191,8 @@ def run(tier):
         srcs = r.sample(pool, r.randint(2, 4))
         if r.random() < 0.4:
             srcs.insert(r.randint(0, len(srcs) - 1), "BAD")
+        hostile = sorted(x for x in SPECIAL if x != "BAD")
+        srcs.insert(r.randint(0, len(srcs) - 1), hostile[k % len(hostile)])  # every kind of open end state in every tier
         cfg = None
         if k % 2:
             # rule ids that report on these very files, so that an override is visible
@@ -188,7 +204,7 @@ def run(tier):
         for j in jobs:
             if j[2] == "PENDING":
                 ids = set()
-                for i, s in enumerate(x for x in j[1] if x != "BAD"):
+                for i, s in enumerate(x for x in j[1] if x not in SPECIAL):
                     shutil.copy(s, os.path.join(pre, "p.vhd"))
                     run_cli(["-f", "p.vhd", "-ap", "--json", "p.json", "-p", "1"], pre)
                     try:
@@ -207,14 +223,14 @@ def run(tier):
     for o in res:
         runs += o["runs"]
         for key, what in o["problems"][:2]:
-            ck.violation("independence:" + key, "batch %r config %r: %s" % ([s if s == "BAD" else os.path.relpath(s, vlib.REPO) for s in o["srcs"]], o["cfg"], what),
-                         {"kind": "input", "files": [s if s == "BAD" else os.path.relpath(s, vlib.REPO) for s in o["srcs"]], "config": o["cfg"], "problem": what})
-    ck.cov.update({"batches": len(jobs), "cli_runs": runs, "batches_with_rejected_file": len([j for j in jobs if "BAD" in j[1]]), "batches_with_per_file_configuration": len([j for j in jobs if j[2] and "file_rules" in j[2]]),
+            ck.violation("independence:" + key, "batch %r config %r: %s" % ([s if s in SPECIAL else os.path.relpath(s, vlib.REPO) for s in o["srcs"]], o["cfg"], what),
+                         {"kind": "input", "files": [s if s in SPECIAL else os.path.relpath(s, vlib.REPO) for s in o["srcs"]], "config": o["cfg"], "problem": what})
+    ck.cov.update({"batches": len(jobs), "cli_runs": runs, "batches_with_rejected_file": len([j for j in jobs if "BAD" in j[1]]), "open_end_state_neighbours": sorted({x for j in jobs for x in j[1] if x in SPECIAL and x != "BAD"}), "batches_with_per_file_configuration": len([j for j in jobs if j[2] and "file_rules" in j[2]]),
                    "batches_skipped_because_vsg_crashed": len([o for o in res if o.get("crashed")])})
-    ck.sample({"batch": [s if s == "BAD" else os.path.relpath(s, vlib.REPO) for s in res[0]["srcs"]], "config": res[0]["cfg"], "runs": res[0]["runs"]})
+    ck.sample({"batch": [s if s in SPECIAL else os.path.relpath(s, vlib.REPO) for s in res[0]["srcs"]], "config": res[0]["cfg"], "runs": res[0]["runs"]})
     ck.cov["evaluations"] = runs
     ck.cov["distinct_nontrivial"] = len(jobs)
-    ck.cov["rule"] = "batch of 2-4 corpus files (+ rejected file) x {no config, rule section + per-file file_rules override} x {check, --fix} x {orders: given, reversed, shuffled} x -p {1,3} ({1,2,16} thorough) compared part by part (report block, JSON entry, JUnit case, error line, fixed text, exit contribution) with single-file -p 1 runs; --stdin vs by name"
+    ck.cov["rule"] = "batch of 2-4 corpus files (+ rejected file, + a neighbour that ends inside an open vhdl_comp_off / translate_off region, delimited comment or vsg_off region) x {no config, rule section + per-file file_rules override} x {check, --fix} x {orders: given, reversed, shuffled} x -p {1,3} ({1,2,16} thorough) compared part by part (report block, JSON entry, JUnit case, error line, fixed text, exit contribution) with single-file -p 1 runs; --stdin vs by name"
     ck.assumptions = ["scheduler theorem assumes apply_rules is a pure function of the file; this check is the exploration of that purity", "per-file configuration keyed on the file name does not apply to --stdin by design"]
     return ck.finish()
 
